@@ -397,6 +397,12 @@ func valueFromAST(valueAST ast.Value, ttype Input, variables map[string]interfac
 			var value interface{}
 			if of, ok = fieldASTs[name]; ok {
 				value = valueFromAST(of.Value, field.Type, variables)
+				if isNullish(value) {
+					// e.g. a variable that was not provided: the field has
+					// no value, so its default applies (as it does when the
+					// same object arrives through a variable).
+					value = field.DefaultValue
+				}
 			} else {
 				value = field.DefaultValue
 			}
